@@ -42,9 +42,13 @@ def main():
     ap.add_argument("--out")
     ap.add_argument("--replay")
     ap.add_argument("--count", action="store_true")
+    ap.add_argument("--stage", type=int, default=1)
+    ap.add_argument("--shared", default=None)
     a = ap.parse_args()
 
     mon = registry()[a.prop](a.tier)
+    mon.stage = a.stage
+    mon.shared = a.shared
     stats = core.Stats()
     t0 = time.time()
     if a.replay:
